@@ -28,7 +28,7 @@ InHand(ln, i) ==
 
 Fails(ln) ==
   LET e == EnvOf(ln)
-      cov == Covers(e, ln.r1, ln.r2)
+      cov == ln.rl0 = ln.l0 /\ Covers(e, ln.r1, ln.r2)     \* Gkdi!CoversReq
   IN  (IF ~WellShaped(e) /\ e # RootEnv THEN {"MACHINERY_bad_envelope"} ELSE {})
       \cup (IF cov /\ ln.res # "key" THEN {"covered_request_must_return_key"} ELSE {})
       \cup (IF ln.res = "key" /\ ln.out # L2(ln.r1, ln.r2) THEN {"result_is_requested_key"} ELSE {})
@@ -51,7 +51,7 @@ Result ==
       F == [i \in 1 .. N |-> Fails(L[i])]
   IN <<"RESULT",
        [n |-> N,
-        covered |-> Cardinality({i \in 1 .. N : Covers(EnvOf(L[i]), L[i].r1, L[i].r2)}),
+        covered |-> Cardinality({i \in 1 .. N : L[i].rl0 = L[i].l0 /\ Covers(EnvOf(L[i]), L[i].r1, L[i].r2)}),
         drift |-> Cardinality({i \in 1 .. N : Drift(L[i])})],
        {<<L[i].id, F[i]>> : i \in {j \in 1 .. N : F[j] # {}}}>>
 
